@@ -29,24 +29,24 @@ type SliceV struct{ Ptr, Off, Len, Cap Term }
 type ptrKind int
 
 const (
-	pLocal ptrKind = iota // local cell (non-escaping Alloc)
-	pObj                  // heap object (ref) of type Root
-	pElem                 // element of a backing array
-	pGlobal               // package-level variable
-	pOpaque               // field of an opaque (library) struct: reads/writes go through the abstract state of Base
+	pLocal  ptrKind = iota // local cell (non-escaping Alloc)
+	pObj                   // heap object (ref) of type Root
+	pElem                  // element of a backing array
+	pGlobal                // package-level variable
+	pOpaque                // field of an opaque (library) struct: reads/writes go through the abstract state of Base
 )
 
 // PtrV is a pointer with statically known shape.
 type PtrV struct {
 	Kind ptrKind
-	Cell cellKey      // pLocal
-	Ref  Term         // pObj: object ref; pElem: backing array ref
-	Idx  Term         // pElem: absolute index
-	Root types.Type   // type of the root object / element / cell
-	Path []int        // field path from the root
-	Glob *ssa.Global  // pGlobal
-	Base *PtrV        // pOpaque: the opaque struct
-	Fld  string       // pOpaque: field name
+	Cell cellKey     // pLocal
+	Ref  Term        // pObj: object ref; pElem: backing array ref
+	Idx  Term        // pElem: absolute index
+	Root types.Type  // type of the root object / element / cell
+	Path []int       // field path from the root
+	Glob *ssa.Global // pGlobal
+	Base *PtrV       // pOpaque: the opaque struct
+	Fld  string      // pOpaque: field name
 }
 
 type TupleV []Value
@@ -475,9 +475,8 @@ func (ex *Exec) strConst(s string) Term {
 	ex.vc.DeclareFun("slen", []Sort{SStr}, SInt)
 	ex.vc.AssumeRaw(fmt.Sprintf("(= (slen %s) %d)", name, len(s)), "")
 	// distinct from every other literal
-	for o, ot := range ex.strs {
-		_ = o
-		ex.vc.AssumeRaw(fmt.Sprintf("(not (= %s %s))", name, ot.S), "")
+	for i := 0; i < len(ex.strs); i++ { // in creation order: the scripts must not depend on map order
+		ex.vc.AssumeRaw(fmt.Sprintf("(not (= %s str!%d))", name, i), "")
 	}
 	if len(s) <= 8 {
 		ex.vc.DeclareFun("sbyte", []Sort{SStr, SInt}, SInt)
